@@ -5,18 +5,15 @@ NOT_APPLICABLE = {("C%02d" % i): PENDING for i in range(1, 21)}
 
 META = {
     "C01": {
-        "text": "PARTIAL proof. Coq theorems (all Hamiltonian tables, cutoffs, strings, betas; no bounds): the sampler's matrix elements are those of H (|J| - J s s', Gamma, |h| + h s); the Metropolis diagonal update of a slot is reversible w.r.t. the SSE configuration weight beta^n (L-n)!/L! prod w; "
-                "any combination of flips of symmetric clusters keeps that weight and is an involution; clusters carrying a field operator are flipped with probability 0; reversible stochastic kernels are stationary and sweeps of stationary kernels are stationary. "
-                "The model's whole timestep is replayed against the real one on raw RNG words (steps), the cluster flip on real configurations (c09). What no theorem covers (ergodicity, estimator identities, the kernel identification) is decided by long runs of the real sampler against exact diagonalisation: energy, magnetisations, correlations and mean operator count per bond on frustrated / multi-edge models with h = 0, +, -.",
-        "note": "Trusted: Coq kernel + vm_compute; model transcriptions (validated by replay); f64 exact-diagonalisation oracle with 6 sigma + 0.02 tolerance and a confirmation run. Convergence itself is oracle-tested, not proved.",
-        "technique": "Coq proof (detailed balance of each move w.r.t. the SSE weight, stationarity under composition) + raw-tape replay of whole timesteps + exact-diagonalisation oracle",
+        "text": 'PARTIAL proof. Coq theorems (all Hamiltonian tables, cutoffs, strings, betas; no bounds). Kernel identification: the WHOLE Metropolis diagonal update, as a program on complete configurations (p = 0 state, operator string) — the very term replayed against the implementation on raw RNG words — leaves the SSE weight beta^n (L-n)!/L! prod w stationary on the space of ALL consistent legal configurations (enumeration proved complete): sum_x W(x) E_{update(x)}[f] = sum_x W(x) f(x) for every observable f, and pointwise sum_x W(x) P(x->y) = W(y). Ingredients, all proved: the sweep program equals the composition of single-slot kernels; each single-slot kernel is in detailed balance with W between any two configurations, keeps the space and has total mass 1 (zero-weight operators have probability zero entry by entry); stationarity composes. The whole default pipeline diagonal update -> cluster update (one fair bit per cluster, involution, weight kept) -> free-spin refresh is proved stationary as ONE program for h = 0 on every space closed under the moves on which the decomposition passes the C09 validators; the hypotheses are decidable and hold on a fully enumerated example space (flow equation evaluated at all 30 configurations); the pipeline is proved equal to the model of QmcIsingGraph::timestep. Also: matrix elements are those of H; clusters with a field operator flip with probability 0. NOT proved: ergodicity (hence convergence), the estimator identities, that decompose always yields a validated labelling, the weighted cluster update for h != 0 as a kernel. These are decided by long runs of the real sampler against exact diagonalisation (energy, magnetisations, correlations, operator counts per bond; h = 0, +, -).',
+        "note": "Trusted: Coq kernel + vm_compute; model transcriptions (validated by raw-tape replay of every public call); f64 exact-diagonalisation oracle with 6 sigma + 0.02 tolerance and a confirmation run. Stationarity of the model's update programs is a theorem; ergodicity / convergence itself is oracle-tested, not proved.",
+        "technique": 'Coq proof (expectation monad law, detailed balance of every single-slot kernel on the complete configuration space, sweep = composition of slot kernels, stationarity of the whole diagonal update and of the whole h = 0 pipeline) + raw-tape replay of whole timesteps + exact-diagonalisation oracle',
         "design_ref": "DESIGN.md §3 C01",
     },
     "C02": {
-        "text": "PARTIAL proof. Coq theorems for every weight table (unequal maximum weights included): the heat-bath slot program (insert with beta W/(L-n+beta W), bond ~ max weight, accept w/max; remove with (L-n+1)/(L-n+1+beta W)) is reversible w.r.t. the same configuration weight as the Metropolis program; the table has one entry per bond equal to the maximum over all 2^k sub-states, which dominates every weight. "
-                "The program and the table are tied to heatbath.rs by raw-tape replay and threshold bisection (c08) and by whole-step replay with heat bath on (steps); convergence with heat bath on (Ising with and without RVB and field, generic with 3-variable terms) is decided against exact diagonalisation.",
+        "text": 'PARTIAL proof. Coq theorems for every weight table (unequal maximum weights included): the WHOLE heat-bath diagonal update, as a program on complete configurations, leaves the same SSE weight stationary as the Metropolis update on the complete configuration space (weak form for every observable, and pointwise), and so does the whole pipeline heat-bath update -> cluster update -> refresh on validated spaces; the heat-bath slot program (insert with beta W/(L-n+beta W), bond ~ max weight, accept w/max; remove with (L-n+1)/(L-n+1+beta W)) has total mass 1, gives zero-weight operators probability zero entry by entry, and is in detailed balance with W between any two configurations; the table has one entry per bond equal to the maximum over all 2^k sub-states. The program and the table are tied to heatbath.rs by raw-tape replay and threshold bisection (c08) and by whole-step replay with heat bath on (steps, including samplers whose interactions are added in two stages with the option toggled in between); convergence with heat bath on (Ising with and without RVB and field, generic with 3-variable terms, staged interaction sets) is decided against exact diagonalisation.',
         "note": "Trusted: Coq kernel + vm_compute; model transcriptions; exact-diagonalisation oracle. Convergence itself is oracle-tested, not proved.",
-        "technique": "Coq proof (heat-bath slot reversibility w.r.t. the SSE weight; table = max over all sub-states) + raw-tape replay / threshold bisection + exact-diagonalisation oracle",
+        "technique": 'Coq proof (stationarity of the whole heat-bath update program for the SSE weight; slot kernel detailed balance; table = max over all sub-states) + raw-tape replay / threshold bisection + exact-diagonalisation oracle',
         "design_ref": "DESIGN.md §3 C02",
     },
     "C03": {
@@ -29,8 +26,7 @@ META = {
         "design_ref": "DESIGN.md §3 C03",
     },
     "C04": {
-        "text": "PARTIAL proof. Coq theorems for every Hamiltonian, operator arity and leg pair: the heat-bath exit choice of the directed loop satisfies W(o) P(o; e->x) = W(o') P(o'; x->e) (same normaliser both ways, exit weight = weight of the resulting operator), a bounce changes nothing; the diagonal update is reversible w.r.t. the configuration weight; cluster updates are enabled exactly when every interaction is spin-flip symmetric and a constant single-site term exists; loop updates preserve leg parity (explains the known finding) and always close into a consistent world line (for every start and exit sequence). "
-                "The generic timestep (diagonal, loops with their start choice, clusters, refresh) is replayed on raw RNG words against the real one; convergence on exchange models, symmetric diagonal + constant sets, mixed arities, with and without heat bath, is decided against exact diagonalisation.",
+        "text": "PARTIAL proof. Coq theorems for every Hamiltonian, operator arity and leg pair: the heat-bath exit choice of the directed loop satisfies W(o) P(o; e->x) = W(o') P(o'; x->e); a bounce changes nothing; the whole diagonal update of the generic sampler (Metropolis or heat bath, table built from the interaction list) leaves the SSE weight of its matrices stationary on the complete configuration space; for symmetric sets the whole pipeline diagonal -> cluster -> refresh is stationary on validated spaces; cluster updates are enabled exactly when every interaction is spin-flip symmetric and a constant single-site term exists; loop updates preserve leg parity (explains the known finding) and always close into a consistent world line (every start, every exit sequence). The generic timestep (diagonal, loops with their start choice, clusters, refresh) is replayed on raw RNG words against the real one; stored operators are checked against the matrix elements of the SUPPLIED tables (not the library's lookup); convergence on exchange models (also next to 2- and 3-site energy shifts), symmetric diagonal + constant sets, mixed arities, staged interaction sets, with and without heat bath, is decided against exact diagonalisation. Not proved: stationarity of the whole loop update as a kernel, ergodicity.",
         "note": "Trusted: Coq kernel + vm_compute; model transcriptions; exact-diagonalisation oracle. Known finding (odd-parity) is listed in known_findings.json and reported as KNOWN-FINDING.",
         "technique": "Coq proof (vertex detailed balance, slot reversibility, cluster gate, parity invariant) + raw-tape replay of generic timesteps + exact-diagonalisation oracle",
         "design_ref": "DESIGN.md §3 C04",
@@ -53,11 +49,7 @@ META = {
         "design_ref": "DESIGN.md §3 C16",
     },
     "C08": {
-        "text": "Coq theorems for every Hamiltonian table, cutoff L, count n<L, state, bond and beta (no bounds): the exact insertion "
-                "probability times (L-n) equals beta*w times the exact removal probability, in the clipped and unclipped regime, for the "
-                "Metropolis and the heat-bath program; off-diagonal ops are returned unchanged; the count threaded through the sweep is the live one. "
-                "The two programs are tied to diagonal.rs/heatbath.rs by replaying whole sweeps of the real code on the raw RNG words (bit-exact decisions, "
-                "rand's rejection zone included) and by bisecting every accept/remove/bond-choice threshold of the real code to the exact word and comparing it with the model's probability to 2^-40.",
+        "text": "Coq theorems for every Hamiltonian table, cutoff L, count n<L, state, bond and beta (no bounds): the exact insertion probability times (L-n) equals beta*w times the exact removal probability, in the clipped and unclipped regime, for the Metropolis and the heat-bath program; off-diagonal ops are returned unchanged; the count threaded through the sweep is the live one; and the same on complete configurations: the update of slot p (state at p obtained by propagation, count read from the string) is in detailed balance with the SSE weight between ANY two consistent legal configurations, with an explicit formula for its transition probability. The two programs are tied to diagonal.rs/heatbath.rs by replaying whole sweeps of the real code on the raw RNG words (bit-exact decisions, rand's rejection zone included) and by bisecting every accept/remove/bond-choice threshold of the real code to the exact word and comparing it with the model's probability to 2^-40.",
         "note": "Trusted: Coq kernel + vm_compute; TapeRng; the rand 0.8.8 decoding rules in run_tape; dyadic inputs so f64 products are exact. "
                 "A model-independent oracle recomputes P_ins/P_rem from the measured thresholds alone and compares with beta*w/(L-n).",
         "technique": "Coq proof over Q (field/lra, list induction) + raw-tape replay and threshold bisection against the real code",
@@ -115,10 +107,8 @@ META = {
         "design_ref": "DESIGN.md §3 C19",
     },
     "C09": {
-        "text": "Coq theorems for every operator string, labelling and flip outcome: the cluster flip leaves the skeleton (number, positions, bonds, variables, constant flags) unchanged; re-decomposing the result "
-                "yields the identical decomposition (it is a function of the skeleton); a cluster containing a zero-ratio (symmetry-breaking) operator has weight 0 and a zero-probability cluster is flipped with probability 0. "
-                "The model transcribes the exploration order of cluster.rs, so that one raw RNG word maps to the same cluster in model and code; it is replayed bit-exactly on synthetic random strings and on equilibrium strings.",
-        "note": "Trusted: Coq kernel + vm_compute; Model/Cluster.v. Partial: preservation of the weight product and of world-line consistency by the flip is checked by an independent oracle on every case and by exact agreement with the model, not proved.",
+        "text": "Coq theorems for every operator string, labelling and flip outcome: the cluster flip leaves the skeleton (number, positions, bonds, variables, constant flags) unchanged; re-decomposing the result yields the identical decomposition; a cluster containing a zero-ratio (symmetry-breaking) operator has weight 0 and a zero-probability cluster is flipped with probability 0; for every labelling accepted by the validators the flip keeps the world line, the weight product and is an involution; as a kernel on complete configurations (one fair bit per cluster) the update reaches y from x exactly as likely as x from y, weights included (detailed balance), and equals the model's cluster_update for every observable. The model transcribes the exploration order of cluster.rs, so that one raw RNG word maps to the same cluster in model and code; it is replayed bit-exactly on synthetic random strings and on equilibrium strings, and the validators are evaluated in Coq on every replayed decomposition.",
+        "note": 'Trusted: Coq kernel + vm_compute; Model/Cluster.v. Certified-validator style: that decompose always yields a labelling accepted by links_ok / sides_ok is not proved (the unrestricted statement is refuted in Coq); the validators run on every correspondence configuration.',
         "technique": "Coq proof (fold invariants, exact mass of the draw program) + raw-tape replay of the real cluster update incl. cluster numbering",
         "design_ref": "DESIGN.md §3 C09",
     },
